@@ -953,20 +953,36 @@ class RandomModel:
         self.calls = []
         self.picks = []
         self.counter = 0
+        self.trace = []
+        self.replaying = None
 
     def reset(self):
         self.calls = []
         self.picks = []
         self.counter = 0
+        self.trace = []          # every elementary outcome, in order
+        self.replaying = None    # when set: iterator over a recorded trace ("same seed")
+
+    def start_replay(self):
+        """the next calls see exactly the outcomes recorded so far - i.e. the generator was re-seeded with the same seed"""
+        self.replaying = iter(list(self.trace))
+        self.calls, self.picks = [], []
+
+    def stop_replay(self):
+        self.replaying = None
 
     def _pick(self, n, what):
         """a symbolic index in [0, n)"""
         from vlib import sym
+        if self.replaying is not None:
+            return next(self.replaying)
         self.counter += 1
         i = sym.sym_int(f"rng{self.counter}_{what}", 0, n - 1)
         for cand in builtins_range(n - 1):       # realise by forking: one branch per possible outcome
             if i == cand:
+                self.trace.append(cand)
                 return cand
+        self.trace.append(n - 1)
         return n - 1
 
     def choice(self, a, size=None, replace=True, p=None):
@@ -1006,9 +1022,13 @@ class RandomModel:
         n = _prod([int(s) for s in shape]) if shape else 1
         vals = []
         for _ in builtins_range(n):
+            if self.replaying is not None:
+                vals.append(next(self.replaying))
+                continue
             self.counter += 1
             r = sym.sym_real(f"rng{self.counter}_u", lo=0)
             sym.assume(r < 1)
+            self.trace.append(r)
             vals.append(r)
         self.calls.append(("rand", {"shape": shape}))
         if not shape:
